@@ -845,6 +845,37 @@ def t_loops(ctx):
                 hs = T.stmts(hb["body"], {"__noinline__": True})
                 first = next((st0 for st0 in hs if st0[0] in ("let", "letpat", "expr")), None)
                 return first is not None and any(isinstance(y, tuple) and y and y[0] == "call" and y[1].endswith("Reader::eat") for e0 in T.stmt_exprs(first) for y in T.sx_walk(e0))
+            def min_value(x, lets, depth=4):
+                """a lower bound of a usize expression built from literals, immutable locals, `opt.map_or(lit, |i| TABLE[i])` over a
+                constant table - or None"""
+                if depth <= 0 or not isinstance(x, tuple):
+                    return None
+                if x[0] == "lit" and isinstance(x[1], int):
+                    return x[1]
+                if x[0] == "var" and x[1] in lets:
+                    return min_value(lets[x[1]], lets, depth - 1)
+                if x[0] == "call" and x[1].endswith("Option::map_or") and len(x[2]) == 3 and x[2][2][0] == "closure":
+                    d0 = min_value(x[2][1], lets, depth - 1)
+                    cb = T.closure_body_sx(f, x[2][2][1])
+                    if d0 is None or not cb:
+                        return None
+                    body0 = cb[1]
+                    consts = [y for y in T.sx_walk(body0) if isinstance(y, tuple) and y and y[0] == "const" and isinstance(y[2] if len(y) > 2 else None, tuple)]
+                    if body0[0] in ("index", "call") and len(consts) == 1 and all(isinstance(v0, int) for v0 in consts[0][2]):
+                        return min([d0] + list(consts[0][2]))
+                return None
+
+            def advances_reader(st, lets):
+                """`data = Reader(&data.0[k..], ..)` with k >= 1: the reader is replaced by a strictly shorter one"""
+                if st[0] != "assign" or st[1][0] != "var" or st[2][0] != "adt" or not st[2][1].endswith("decodation::Reader"):
+                    return False
+                first = dict(st[2][3]).get("0")
+                for y in T.sx_walk(first):
+                    if isinstance(y, tuple) and y and y[0] == "adt" and y[1] == "core::ops::RangeFrom":
+                        k0 = min_value(dict(y[3]).get("start"), lets)
+                        base_ok = any(isinstance(z, tuple) and z and z[0] == "field" and z[2] == "0" and z[1][:2] == st[1][:2] for z in T.sx_walk(first))
+                        return k0 is not None and k0 >= 1 and base_ok
+                return False
             if cn in ("decodation::decode_x12", "decodation::decode_c40_like", "decodation::decode_edifact", "decodation::decode_ascii"):
                 for k, lp in enumerate(loops):
                     body = lp[1]
@@ -852,6 +883,11 @@ def t_loops(ctx):
                     cond = body[0][1] if body and body[0][0] == "if" else None
                     cond_eats = cond is not None and cond[0] == "iflet" and cond[1][0] == "call" and cond[1][1].endswith("Reader::eat")
                     progressed = cond_eats
+                    lets0 = {s0[1].split("#")[0]: s0[3] for s0 in then if s0[0] == "let" and not s0[2]}
+                    if any(advances_reader(s0, lets0) for s0 in then if s0[0] == "assign") and not any(
+                            s0[0] in ("continue",) for s0 in T.stmt_walk(then[:next((i0 for i0, s1 in enumerate(then) if s1[0] == "assign" and advances_reader(s1, lets0)), 0)])):
+                        # every iteration reaches the top-level reassignment of the reader to a strictly shorter one (or leaves before)
+                        progressed = True
                     for st in then:
                         if any(eats_call(x) for e in T.stmt_exprs(st) for x in T.sx_walk(e)) and st[0] in ("let", "letpat", "expr"):
                             progressed = True
